@@ -1,1 +1,2 @@
 //! Reference models (sequential specifications used by the oracles)
+pub mod mbroker;
